@@ -22,7 +22,9 @@ Open Scope N_scope.
 
 (* ---------- values ---------- *)
 
-Inductive wval := WU (n : N) | WS (z : Z) | WB (l : list N).
+Inductive wval :=
+  | WU (n : N) | WS (z : Z) | WB (l : list N)
+  | WRaw (l : list N).   (* datatypes.RawBytes: a caller-supplied, already encoded field *)
 
 (* the six shapes of TemplateDataPacker.SPECS entries *)
 Inductive vclass :=
@@ -71,9 +73,12 @@ Fixpoint quiet_groups (l : list N) : list N :=
   | _ => l
   end.
 
-Fixpoint nan_free (l : list N) : bool :=
+(* signalling = NaN with the quiet bit (bit 22 = bit 6 of b2) clear *)
+Definition is_snan4 (b0 b1 b2 b3 : N) : bool := is_nan4 b0 b1 b2 b3 && negb (N.testbit b2 6).
+
+Fixpoint snan_free (l : list N) : bool :=
   match l with
-  | b0 :: b1 :: b2 :: b3 :: r => negb (is_nan4 b0 b1 b2 b3) && nan_free r
+  | b0 :: b1 :: b2 :: b3 :: r => negb (is_snan4 b0 b1 b2 b3) && snan_free r
   | _ => true
   end.
 
@@ -111,13 +116,17 @@ Definition vtype_is_varlen (t : vtype) : bool := match t with TVarlen => true | 
 
 (* _serialize_var for a value that is set *)
 Definition pack_var (tv : tvar) (v : wval) : option (list N) :=
-  match pack_val (vty tv) v with
-  | None => None
-  | Some p =>
-      if vtype_is_varlen (vty tv) then
-        if N.of_nat (length p) <? 256 ^ N.of_nat (vsize tv)
-        then Some (le_bytes (vsize tv) (N.of_nat (length p)) ++ p) else None
-      else Some p
+  match v with
+  | WRaw l => Some l       (* `isinstance(var_data, RawBytes)`: written as is, for any type, no length prefix *)
+  | _ =>
+      match pack_val (vty tv) v with
+      | None => None
+      | Some p =>
+          if vtype_is_varlen (vty tv) then
+            if N.of_nat (length p) <? 256 ^ N.of_nat (vsize tv)
+            then Some (le_bytes (vsize tv) (N.of_nat (length p)) ++ p) else None
+          else Some p
+      end
   end.
 
 Definition nzeros (n : nat) : list N := repeat 0 n.
@@ -586,7 +595,7 @@ Definition val_ok (tv : tvar) (v : wval) : bool :=
   | CUbe k, WU n => n <? 256 ^ N.of_nat k
   | CSle k, WS z => srangeb k z
   | CRaw k, WB l => (length l =? k)%nat && bytes_okb l
-  | CF32 c, WB l => (length l =? 4 * c)%nat && bytes_okb l && nan_free l
+  | CF32 c, WB l => (length l =? 4 * c)%nat && bytes_okb l && snan_free l
   | CFix, WB l => (length l =? vsize tv)%nat && bytes_okb l
   | CVar, WB l => (N.of_nat (length l) <? 256 ^ N.of_nat (vsize tv)) && bytes_okb l
   | _, _ => false
